@@ -5,6 +5,9 @@ pub mod c01;
 pub mod c02;
 pub mod c03;
 pub mod c08;
+pub mod c09;
+pub mod c10;
+pub mod c11;
 pub mod c12;
 pub mod c16;
 pub mod c17;
@@ -25,6 +28,9 @@ pub fn get(id: &str, tier: Tier) -> Option<Property> {
         "C06" => c06::property(tier),
         "C07" => c07::property(tier),
         "C08" => c08::property(tier),
+        "C09" => c09::property(tier),
+        "C10" => c10::property(tier),
+        "C11" => c11::property(tier),
         "C12" => c12::property(tier),
         "C16" => c16::property(tier),
         "C17" => c17::property(tier),
